@@ -59,6 +59,26 @@ static int entry_anchor(const char * s, size_t len, int k) {
 	return -1;
 }
 
+#ifdef SINK_NUM_GHOST
+extern unsigned long g_sink_num[]; extern size_t g_sink_nnum;
+#endif
+#ifdef GROW
+/* -DGROW: the note content is rendered BY CONTRACT -- mmd_export_token_tree_html (same file; body removed from the compiled repo object, see
+ * drop_bodies) may mark one more note as used while a note is being printed (a footnote referenced from inside a footnote: the
+ * PAIR_BRACKET_FOOTNOTE arm calls footnote_from_bracket -> mark_footnote_as_used -> stack_push(used_footnotes)).  The list must still
+ * have an entry for EVERY note used by the time it ends. */
+static int g_grown;
+void mmd_export_token_tree_html(DString * out, const char * source, token * t, scratch_pad * scratch) {
+	bool more;
+	if (more && g_grown < GROW) {
+		footnote * f = ALLOC(sizeof(footnote));
+		f->content = NULL; f->label = NULL; f->label_text = NULL; f->clean_text = NULL; f->free_para = false;
+		stack_push(scratch->used_footnotes, f); f->count = scratch->used_footnotes->size;
+		g_grown++;
+	}
+}
+#endif
+
 void h_footnote_list(void) {
 	scratch_pad * scratch = ALLOC(sizeof(scratch_pad));
 	{ IN(int, base); ASSUME(base >= 0 && base < 32000); scratch->random_seed_base = base; }
@@ -72,9 +92,22 @@ void h_footnote_list(void) {
 	}
 	DString * out = d_string_new("");
 	char * source = ALLOC(1); source[0] = 0;
+#ifdef SINK_NUM_GHOST
+	g_sink_nnum = 0;
+#endif
 	mmd_export_footnote_list_html(out, source, scratch);
+#ifdef GROW
+	ASSERT(scratch->used_footnotes->size <= NNOTES + GROW, "ghost: at most GROW notes were added");
+	for (int k = 1; k <= NNOTES + GROW; k++) if (k <= (int)scratch->used_footnotes->size) {
+#else
 	for (int k = 1; k <= NNOTES; k++) {
+#endif
+#if defined(GROW) && defined(SINK_NUM_GHOST)
+		/* the only numbers this function prints are the entry ids (the content is rendered by the stub): compare VALUES, in order */
+		int got = ((size_t)k <= g_sink_nnum) ? (int)g_sink_num[k - 1] : -1;
+#else
 		int got = entry_anchor(out->str, out->currentStringLength, k);
+#endif
 		int want = anchor_of(scratch, k);
 		ASSERT(got != -1, "the list has an entry <li id=\"fn:N\"> for every used note");
 		ASSERT(got == want, "postcondition C10: the id of footnote entry k is the anchor the calls link to (k, or its consistent renaming R(seed_base + k) % 32000 + 1 under EXT_RANDOM_FOOT)");
